@@ -22,7 +22,7 @@ ANCHORS = ['pycaption.base:Caption._format_timestamp', 'pycaption.base:Caption.f
 REQUIRE = {'writes_' + w: 30 for w in W.WRITERS}
 REQUIRE.update({'sami_sequence_checks': 20, 'sami_multiset_checks': 5, 'float_time_sets': 20, 'runs_present': 20, 'sami_blank_syncs_required': 20,
                 'sami_blank_syncs_forbidden': 10, 'sami_multi_language': 10, 'cues_compared': 1000,
-                'webvtt_split_captions': 5})
+                'webvtt_split_captions': 5, 'captions_with_empty_text_only': 20})
 
 RES = {'SRTWriter': 1000, 'WebVTTWriter': 1000, 'DFXPWriter': 1000, 'SinglePositioningDFXPWriter': 1000,
        'LegacyDFXPWriter': 1000, 'SAMIWriter': 1000, 'MicroDVDWriter': 40000}
@@ -58,6 +58,10 @@ def gen_case(rng, tag, writer):
                     if x[0] == 't':
                         x.append(l1 if seen == 0 else l2)
                         seen += 1
+            if writer != 'SAMIWriter' and rng.random() < 0.03:
+                # a caption whose only text node is empty still is a timed cue
+                nodes = rng.choice([[['t', '']], [['t', ''], ['t', '']], [['s', True, {'color': 'red'}], ['t', ''],
+                                                                             ['s', False, {'color': 'red'}]]])
             caps.append({'start': a, 'end': b, 'nodes': nodes, 'style': None, 'layout': None})
         spec['langs'].append({'lang': lang, 'layout': None, 'captions': caps})
     opts = {}
@@ -108,6 +112,8 @@ def check(case, ctx):
     cs = dump.mk_caption_set(case['set'])
     before = dump.caption_set(cs)
     ctx.count('writes_' + writer)
+    ctx.count('captions_with_empty_text_only', sum(1 for l in before['langs'] for c in l['captions']
+                                                   if not ''.join(n[1] for n in c['nodes'] if n[0] == 't')))
     if case['float']:
         ctx.count('float_time_sets')
     try:
